@@ -1019,3 +1019,60 @@ func anyAnonMutates(c *core.Ctx, fn *ssa.Function) bool {
 	}
 	return false
 }
+
+func init() {
+	register(&Rule{ID: "TS-SHUTDOWN", Floor: 1,
+		Doc: "in the server's Shutdown every return on the ok-edge of the HTTP server's Shutdown has closed the store (or the store field was nil)",
+		Run: func(c *core.Ctx) {
+			r := requireRoles(c)
+			if r == nil {
+				return
+			}
+			n := 0
+			for _, fn := range serverFuncs(c) {
+				var hs *ssa.Call
+				an.Calls(fn, func(call ssa.CallInstruction) {
+					if cc, ok := call.(*ssa.Call); ok && an.IsMethod(call, "net/http", "Server", "Shutdown") {
+						hs = cc
+					}
+				})
+				if hs == nil {
+					continue
+				}
+				n++
+				type st struct{ ok, closed, nilStore bool }
+				bad := ""
+				an.Paths(an.PathSpec[st]{Fn: fn, Init: st{},
+					Instr: func(s st, in ssa.Instruction) []st {
+						switch x := in.(type) {
+						case *ssa.Call:
+							if r.IsAPI(x, "Store", "Close") {
+								s.closed = true
+							}
+						case *ssa.Return:
+							if s.ok && !s.closed && !s.nilStore && bad == "" {
+								bad = fmt.Sprintf("the return at %s is reachable after a successful HTTP shutdown without closing the store: background collection keeps running and upload sessions are not cleaned up", c.P.Pos(x.Pos()))
+							}
+						}
+						return []st{s}
+					},
+					Edge: func(s st, from *ssa.BasicBlock, succ int) (st, bool) {
+						if ifi := an.BlockIf(from); ifi != nil {
+							if x, nilSucc, ok := an.NilTest(ifi); ok {
+								if x == ssa.Value(hs) && succ == nilSucc {
+									s.ok = true
+								}
+								if _, p := accessPath(an.Strip(x)); len(p) > 0 && p[len(p)-1] == "store" && succ == nilSucc {
+									s.nilStore = true
+								}
+							}
+						}
+						return s, true
+					}})
+				c.Check(bad == "", "shutdown-closes-store:"+kn(c.P.FuncName(fn)), hs.Pos(), "%s", map[bool]string{true: "the store is closed on every path after a successful HTTP shutdown", false: bad}[bad == ""])
+			}
+			if n == 0 {
+				c.Unresolved("shutdown", "no function calling (*http.Server).Shutdown found")
+			}
+		}})
+}
